@@ -30,40 +30,65 @@ Definition cache_status (now : Z) (sb : B) (sl : L) (name : str)
     else (sb, sl1, CMiss, None, Some e)
   end.
 
+(* CacheOnReadFs.copyToLayer: a directory of the base is created in the layer (since the fix),
+   anything else is copied *)
+Definition cache_copy_to_layer (sb : B) (sl : L) (name : str) : B * L * option err :=
+  if Z.eqb cache_copy_dir_mkdir 1 then
+    match bstep sb (Stat name) with
+    | (sb1, RInfo fi) =>
+      if fi_dir fi then
+        match lstep sl (MkdirAll name (Z.land (fi_mode fi) 511)) with
+        | (sl1, ROk) => (sb1, sl1, None)
+        | (sl1, r) => (sb1, sl1, Some (err_of r))
+        end
+      else copy_to_layer bstep lstep sb1 sl name
+    | (sb1, _) => copy_to_layer bstep lstep sb1 sl name
+    end
+  else copy_to_layer bstep lstep sb sl name.
+
 Definition cret (sb : B) (sl : L) (tbl : list chandle) (r : res) : (B * L * list chandle) * res :=
   ((sb, sl, tbl), r).
 
 (* the common shape of Chtimes/Chmod/Chown/Rename: base first (after a copy on miss/stale), then layer *)
 Definition cache_both (now : Z) (sb : B) (sl : L) (tbl : list chandle) (name : str) (o : op) (copy_first : bool)
+  (miss_base_only : bool)   (* Remove since the fix: on a miss only the base is called *)
   : (B * L * list chandle) * res :=
   let '(sb1, sl1, st, _, e) := cache_status now sb sl name in
   match e with
   | Some er => cret sb1 sl1 tbl (RErr er)
   | None =>
-    let base_part : B * L * option err :=
+    (* Some r = the call returns r here (an error, or a panic of the base, which propagates) *)
+    let stop (r : res) : option res :=
+      match r with RPanic => Some RPanic | _ => match res_err r with Some er => Some (RErr er) | None => None end end in
+    let base_part : B * L * option res :=
       match st with
       | CLocal => (sb1, sl1, None)
-      | CHit => let '(sb2, r) := bstep sb1 o in (sb2, sl1, res_err r)
+      | CHit => let '(sb2, r) := bstep sb1 o in (sb2, sl1, stop r)
       | CStale | CMiss =>
         if copy_first then
-          match copy_to_layer bstep lstep sb1 sl1 name with
-          | (sb2, sl2, Some ce) => (sb2, sl2, Some ce)
-          | (sb2, sl2, None) => let '(sb3, r) := bstep sb2 o in (sb3, sl2, res_err r)
+          match cache_copy_to_layer sb1 sl1 name with
+          | (sb2, sl2, Some ce) => (sb2, sl2, Some (RErr ce))
+          | (sb2, sl2, None) => let '(sb3, r) := bstep sb2 o in (sb3, sl2, stop r)
           end
-        else let '(sb2, r) := bstep sb1 o in (sb2, sl1, res_err r)
+        else let '(sb2, r) := bstep sb1 o in (sb2, sl1, stop r)
       end in
-    match base_part with
-    | (sb2, sl2, Some er) => cret sb2 sl2 tbl (RErr er)
-    | (sb2, sl2, None) => let '(sl3, r) := lstep sl2 o in cret sb2 sl3 tbl r
+    match st, miss_base_only with
+    | CMiss, true => let '(sb2, r) := bstep sb1 o in cret sb2 sl1 tbl r
+    | _, _ =>
+      match base_part with
+      | (sb2, sl2, Some r) => cret sb2 sl2 tbl r
+      | (sb2, sl2, None) => let '(sl3, r) := lstep sl2 o in cret sb2 sl3 tbl r
+      end
     end
   end.
 
 Definition cache_step (now : Z) (st : B * L * list chandle) (o : op) : (B * L * list chandle) * res :=
   let '(sb, sl, tbl) := st in
   match o with
-  | Chtimes p _ | Chmod p _ | Chown p _ _ => cache_both now sb sl tbl p o true
-  | Rename p _ => cache_both now sb sl tbl p o true
-  | Remove p | RemoveAll p => cache_both now sb sl tbl p o false
+  | Chtimes p _ | Chmod p _ | Chown p _ _ => cache_both now sb sl tbl p o true false
+  | Rename p _ => cache_both now sb sl tbl p o true false
+  | Remove p => cache_both now sb sl tbl p o false (Z.eqb cache_remove_miss_base_only 1)
+  | RemoveAll p => cache_both now sb sl tbl p o false false
   | Stat p =>
     let '(sb1, sl1, cs, fi, e) := cache_status now sb sl p in
     match e with
@@ -83,8 +108,15 @@ Definition cache_step (now : Z) (st : B * L * list chandle) (o : op) : (B * L * 
       let copied : B * L * option err :=
         match cs with
         | CLocal | CHit => (sb1, sl1, None)
-        | _ => copy_to_layer_with bstep lstep sb1 sl1 p (OpenFile p flag perm)
+        | _ => copy_to_layer_with bstep lstep sb1 sl1 p
+                 (OpenFile p (if Z.eqb copyfiletolayer_clears_append 1 then Z.land flag (Z.lnot o_append) else flag) perm)
         end in
+      (* after a copy the flag word loses O_EXCL (since the fix): the copy has created the file *)
+      let flag := match cs with
+                  | CLocal | CHit => flag
+                  | _ => if Z.eqb cache_openfile_clears_excl 1 then Z.land flag (Z.lnot o_excl) else flag
+                  end in
+      let o := OpenFile p flag perm in
       match copied with
       | (sb2, sl2, Some ce) => cret sb2 sl2 tbl (RErr ce)
       | (sb2, sl2, None) =>
@@ -124,7 +156,7 @@ Definition cache_step (now : Z) (st : B * L * list chandle) (o : op) : (B * L * 
         | (sb2, RInfo bfi) =>
           if fi_dir bfi then open_base bstep sb2 sl1 tbl o
           else
-            match copy_to_layer bstep lstep sb2 sl1 p with
+            match cache_copy_to_layer sb2 sl1 p with
             | (sb3, sl2, Some ce) => cret sb3 sl2 tbl (RErr ce)
             | (sb3, sl2, None) => open_layer lstep sb3 sl2 tbl o
             end
@@ -134,7 +166,7 @@ Definition cache_step (now : Z) (st : B * L * list chandle) (o : op) : (B * L * 
         match fi with
         | Some f =>
           if negb (fi_dir f) then
-            match copy_to_layer bstep lstep sb1 sl1 p with
+            match cache_copy_to_layer sb1 sl1 p with
             | (sb3, sl2, Some ce) => cret sb3 sl2 tbl (RErr ce)
             | (sb3, sl2, None) => open_layer lstep sb3 sl2 tbl o
             end
